@@ -17,8 +17,10 @@ CHECKS = {
             "runtime monitoring: reference-digest + read-back oracle over generated writes in 3-4 execution modes; sanitizer replays in thorough",
             "Every write entry point (one-shot, streamed, keyed, by address, declared/undeclared size) is driven "
             "in sync/async-std/tokio modes over hostile keys, boundary sizes and 9 chunk shapes; the monitor "
-            "compares the returned address with hashlib and every read-back with the written bytes. Held on the "
-            "executions listed in the evidence, not a proof.",
+            "compares the returned address with hashlib and every read-back with the written bytes. A short-write monitor "
+            "(ptrace supervisor shortens every data write(2) of three scenarios) checks that a legal partial write does not "
+            "change the digest. Thorough: the same generators replayed under ASan, valgrind memcheck and Miri with a "
+            "result-equality oracle. Held on the executions listed in the evidence, not a proof.",
             "Trusts hashlib, the tmpfs/ext4 kernel implementation and the cdrv driver's faithful transcription of "
             "results. xxh3 is checked for determinism/read-back only.",
             "DESIGN.md §5 C02"),
@@ -46,7 +48,9 @@ CHECKS = {
     "C09": ("exploration",
             "runtime monitoring: model-based random histories with full-state comparison after every removal",
             "Random histories mixing writes with remove / remove_hash / remove_fully / clear (sync and async); after every removal "
-            "every key and address ever used and the listing are compared with the sequential model.",
+            "every key and address ever used and the listing are compared with the sequential model. In addition a removal of one "
+            "key races (supervisor-chosen schedules) with a write of another key whose bucket shares both index directories: the "
+            "other key must keep its entry.",
             "Open outcomes (remove_fully of absent key etc.) accept Err with unchanged state.",
             "DESIGN.md §5 C09"),
     "C10": ("exploration",
@@ -192,8 +196,11 @@ def main():
         ],
         "checks": checks,
         "not_applicable": na,
-        "notes": "See DESIGN.md. Fixes to genuine defects are 'fix:' commits in /repo and are listed in "
-                 "known_findings.json as fixed entries.",
+        "notes": "See DESIGN.md (section 6: defects found and repaired; section 10: which check catches which mutant / seeded "
+                 "change). Fixes to genuine defects are 'fix:' commits in /repo and are listed in known_findings.json as fixed "
+                 "entries; the one open finding (metadata nested >= 127 levels, C11) prints a KNOWN-FINDING line. "
+                 "`./cvrun selftest` validates the monitors against mutants/catalogue.py on a scratch copy; "
+                 "`python3 -m cv.seedrun <id>` runs them against a seeded change applied to /repo and restores /repo.",
     }
     with open(os.path.join(VERIF, "MANIFEST.json"), "w") as f:
         json.dump(m, f, indent=1)
